@@ -395,39 +395,8 @@ theorem seqValid_get_written {σ : Spec} {l : List OpRec} (hv : SeqValid σ l)
 
 /-! ### durable writers -/
 
-theorem view_of_shape (s1 s2 : Store) (k : Key)
-    (h1 : s1.vocab = [] ∧ s1.slab = [] ∧ s1.cache = [])
-    (h2 : s2.vocab = [] ∧ s2.slab = [] ∧ s2.cache = [])
-    (hmd : aget s1.md k = aget s2.md k) : view s1 k = view s2 k := by
-  obtain ⟨a1, b1, c1⟩ := h1
-  obtain ⟨a2, b2, c2⟩ := h2
-  have e1 : decide (k ∈ scanNow s1 []) = (aget s1.md k).isSome := by
-    simp [scanNow, a1, c1, liveKeys, mdMatch, mem_keys_iff]
-  have e2 : decide (k ∈ scanNow s2 []) = (aget s2.md k).isSome := by
-    simp [scanNow, a2, c2, liveKeys, mdMatch, mem_keys_iff]
-  simp only [view, e1, e2]
-  cases hcl : k.cls <;>
-    simp [seqOp, seqOpAux, stepOp, routerGet, existsNow, mdGet, idxGet, idxGetAux, a1, a2, c1, c2,
-      hcl, hmd, aget]
-
 theorem replay_snoc (w : List Entry) (e : Entry) : replay (w ++ [e]) = applyEntry (replay w) e := by
   simp [replay, List.foldl_append]
-
-theorem simple_cases {op : Op} (h : op.simpleDurable = true) :
-    (∃ k v, op = .putD k v ∧ k.cls ≠ .cache ∧ k.cls ≠ .emb ∧ v.vec = .none) ∨
-    (∃ k, op = .delD k ∧ k.cls ≠ .cache ∧ k.cls ≠ .emb) := by
-  cases op with
-  | putD k v =>
-    simp only [Op.simpleDurable, decide_eq_true_eq] at h
-    exact Or.inl ⟨k, v, rfl, h⟩
-  | delD k =>
-    simp only [Op.simpleDurable, decide_eq_true_eq] at h
-    exact Or.inr ⟨k, rfl, h⟩
-  | _ => simp [Op.simpleDurable] at h
-
-theorem applyEntry_simple (s : Store) (k : Key) (v : Val) (hv : v.vec = .none) (he : k.cls ≠ .emb) :
-    applyEntry s (.metaSet k v) = { s with md := aset s.md k v } := by
-  simp [applyEntry, hv, he]
 
 theorem getElem?_set_cases {α} {l : List α} {t i : Nat} {a x old : α} (hold : l[t]? = some old)
     (h : (l.set t a)[i]? = some x) : (i = t ∧ x = a) ∨ (i ≠ t ∧ l[i]? = some x) := by
@@ -447,229 +416,8 @@ def afterLog : Op → PC
   | .delD .. => .delDAfterLog
   | _ => .start
 
-/-- what the replayed log holds for the key of a write that is logged and not yet applied -/
-def logged : Op → Option Val
-  | .putD _ v => some v
-  | _ => none
-
-/-- invariant of runs of durable writers (any keys, contended): nobody is between log and apply
-    and the replayed log agrees with memory on every key; or exactly one thread is (it holds the
-    log mutex), the replayed log agrees with memory on every key but that of its write, and there
-    it already holds the logged effect -/
-structure LInv (sys : Sys) : Prop where
-  walOn : sys.store.walOn = true
-  shape : sys.store.vocab = [] ∧ sys.store.slab = [] ∧ sys.store.cache = []
-  rshape : (replay sys.store.wal).vocab = [] ∧ (replay sys.store.wal).slab = [] ∧
-    (replay sys.store.wal).cache = []
-  ops : ∀ th ∈ sys.threads, ∀ op ∈ th.ops, op.simpleDurable = true
-  cs : ((∀ th ∈ sys.threads, th.pc = .start) ∧
-        ∀ k, aget (replay sys.store.wal).md k = aget sys.store.md k) ∨
-       ∃ (i : Nat) (th : Thread) (op : Op) (rest : List Op) (k : Key),
-         sys.threads[i]? = some th ∧ th.ops = op :: rest ∧ th.pc = afterLog op ∧ op.key? = some k ∧
-         (∀ (j : Nat) (thj : Thread), sys.threads[j]? = some thj → j ≠ i → thj.pc = .start) ∧
-         (∀ k', k' ≠ k → aget (replay sys.store.wal).md k' = aget sys.store.md k') ∧
-         aget (replay sys.store.wal).md k = logged op
-
-theorem LInv.init (progs : List ThreadProgram)
-    (h : ∀ p ∈ progs, ∀ op ∈ p, op.simpleDurable = true) : LInv (initSys true progs) := by
-  constructor
-  · rfl
-  · exact ⟨rfl, rfl, rfl⟩
-  · exact ⟨rfl, rfl, rfl⟩
-  · intro th hth
-    simp only [initSys, List.mem_map] at hth
-    obtain ⟨p, hp, rfl⟩ := hth
-    exact h p hp
-  · left
-    refine ⟨?_, fun _ => rfl⟩
-    intro th hth
-    simp only [initSys, List.mem_map] at hth
-    obtain ⟨p, _, rfl⟩ := hth
-    rfl
-
 theorem mem_set_cases {α} {l : List α} {t : Nat} {a x : α} (h : x ∈ l.set t a) : x ∈ l ∨ x = a :=
   List.mem_or_eq_of_mem_set h
-
-theorem LInv.step {sys : Sys} (h : LInv sys) (t : Nat) : LInv (step sys t) := by
-  unfold Neumann.KV.step
-  split
-  · exact h
-  · rename_i th hth
-    split
-    · exact h
-    · rename_i op rest hops
-      split
-      · exact h
-      · rename_i hguard
-        have hmem : th ∈ sys.threads := List.mem_of_getElem? hth
-        have hsimple := h.ops th hmem
-        have hop := hsimple op (by simp [hops])
-        have hrestops : ∀ o ∈ rest, o.simpleDurable = true := fun o ho => hsimple o (by simp [hops, ho])
-        have hlock : op.takesLock = true := by
-          rcases simple_cases hop with ⟨k, v, rfl, hc, _, _⟩ | ⟨k, rfl, hc, _⟩ <;> simp [Op.takesLock, hc]
-        obtain ⟨hv0, hs0, hc0⟩ := h.shape
-        unfold Neumann.KV.stepOld
-        simp only [hth, hops]
-        rcases h.cs with ⟨hstart, hidle⟩ | ⟨i, thi, opi, resti, ki, hi, hopsi, hpci, hki, hothers, hframe, hlog⟩
-        · -- nobody holds the mutex: the log step
-          have hpc : th.pc = .start := hstart th hmem
-          rcases simple_cases hop with ⟨k, v, rfl, hc, he, hv⟩ | ⟨k, rfl, hc, he⟩
-          · have hstep : stepOp sys.store (.putD k v) .start =
-                ({ sys.store with wal := sys.store.wal ++ [.metaSet k v] }, .cont .putDAfterLog) := by
-              simp [stepOp, hc, logPut, h.walOn, hv]
-            simp only [hpc, hstep, if_true]
-            have hrep : replay (sys.store.wal ++ [.metaSet k v]) =
-                { replay sys.store.wal with md := aset (replay sys.store.wal).md k v } := by
-              rw [replay_snoc, applyEntry_simple _ _ _ hv he]
-            constructor
-            · exact h.walOn
-            · exact h.shape
-            · simpa only [hrep] using h.rshape
-            · intro th' hm
-              rcases mem_set_cases hm with h1 | h1
-              · exact h.ops th' h1
-              · subst h1; exact fun o ho => hsimple o (by simpa [hops] using ho)
-            · right
-              obtain ⟨hlt, _⟩ := List.getElem?_eq_some_iff.mp hth
-              refine ⟨t, _, .putD k v, rest, k, List.getElem?_set_self hlt, rfl, rfl, rfl, ?_, ?_, ?_⟩
-              · intro j thj hj hne
-                rw [List.getElem?_set_ne (Ne.symm hne)] at hj
-                exact hstart thj (List.mem_of_getElem? hj)
-              · intro k' hne
-                simp only [hrep, aget_aset, Ne.symm hne, if_false]
-                exact hidle k'
-              · simp [hrep, aget_aset, logged]
-          · have hstep : stepOp sys.store (.delD k) .start =
-                ({ sys.store with wal := sys.store.wal ++ [.metaDel k] }, .cont .delDAfterLog) := by
-              simp [stepOp, hc, logDelete, h.walOn, hv0, idxGet, idxGetAux]
-            simp only [hpc, hstep, if_true]
-            have hrep : replay (sys.store.wal ++ [.metaDel k]) =
-                { replay sys.store.wal with md := aerase (replay sys.store.wal).md k } := by
-              rw [replay_snoc]; rfl
-            constructor
-            · exact h.walOn
-            · exact h.shape
-            · simpa only [hrep] using h.rshape
-            · intro th' hm
-              rcases mem_set_cases hm with h1 | h1
-              · exact h.ops th' h1
-              · subst h1; exact fun o ho => hsimple o (by simpa [hops] using ho)
-            · right
-              obtain ⟨hlt, _⟩ := List.getElem?_eq_some_iff.mp hth
-              refine ⟨t, _, .delD k, rest, k, List.getElem?_set_self hlt, rfl, rfl, rfl, ?_, ?_, ?_⟩
-              · intro j thj hj hne
-                rw [List.getElem?_set_ne (Ne.symm hne)] at hj
-                exact hstart thj (List.mem_of_getElem? hj)
-              · intro k' hne
-                simp only [hrep, aget_aerase, Ne.symm hne, if_false]
-                exact hidle k'
-              · simp [hrep, aget_aerase, logged]
-        · -- thread `i` holds the mutex
-          by_cases hti : t = i
-          · -- the apply step (the mutex is released at its end)
-            subst hti
-            rw [hth] at hi
-            cases hi
-            rw [hops] at hopsi
-            cases hopsi
-            have hallstart : ∀ th' ∈ sys.threads.set t { ops := rest, pc := .start, idx := th.idx + 1, inv := 0 },
-                th'.pc = .start := by
-              intro th' hm
-              obtain ⟨j, hj⟩ := List.getElem?_of_mem hm
-              rcases getElem?_set_cases hth hj with ⟨_, rfl⟩ | ⟨hne, hj'⟩
-              · rfl
-              · exact hothers j th' hj' hne
-            have hopsall : ∀ th' ∈ sys.threads.set t { ops := rest, pc := .start, idx := th.idx + 1, inv := 0 },
-                ∀ o ∈ th'.ops, o.simpleDurable = true := by
-              intro th' hm
-              rcases mem_set_cases hm with h1 | h1
-              · exact h.ops th' h1
-              · subst h1; exact hrestops
-            rcases simple_cases hop with ⟨k, v, rfl, hc, he, hv⟩ | ⟨k, rfl, hc, he⟩
-            · simp only [Op.key?, Option.some.injEq] at hki
-              subst hki
-              have hstep : stepOp sys.store (.putD k v) th.pc =
-                  ({ sys.store with md := aset sys.store.md k v }, .done .ok) := by
-                rw [hpci]
-                cases hcl : k.cls <;> simp_all [stepOp, routerPut, afterLog]
-              simp only [hstep]
-              constructor
-              · exact h.walOn
-              · exact h.shape
-              · exact h.rshape
-              · exact hopsall
-              · left
-                refine ⟨hallstart, ?_⟩
-                intro k'
-                simp only [aget_aset]
-                by_cases e : k = k'
-                · subst e; simpa [logged] using hlog
-                · simp only [e, if_false]; exact hframe k' (Ne.symm e)
-            · simp only [Op.key?, Option.some.injEq] at hki
-              subst hki
-              have hlog' : aget (replay sys.store.wal).md k = none := hlog
-              cases hmd : aget sys.store.md k with
-              | none =>
-                have hstep : stepOp sys.store (.delD k) th.pc = (sys.store, .done .notFound) := by
-                  rw [hpci]
-                  cases hcl : k.cls <;> simp_all [stepOp, routerDelete, existsNow, afterLog]
-                simp only [hstep]
-                constructor
-                · exact h.walOn
-                · exact h.shape
-                · exact h.rshape
-                · exact hopsall
-                · left
-                  refine ⟨hallstart, ?_⟩
-                  intro k'
-                  by_cases e : k' = k
-                  · subst e; rw [hlog', hmd]
-                  · exact hframe k' e
-              | some w =>
-                have hstep : stepOp sys.store (.delD k) th.pc =
-                    ({ sys.store with md := aerase sys.store.md k }, .done .ok) := by
-                  rw [hpci]
-                  cases hcl : k.cls <;> simp_all [stepOp, routerDelete, existsNow, afterLog]
-                simp only [hstep]
-                constructor
-                · exact h.walOn
-                · exact h.shape
-                · exact h.rshape
-                · exact hopsall
-                · left
-                  refine ⟨hallstart, ?_⟩
-                  intro k'
-                  simp only [aget_aerase]
-                  by_cases e : k = k'
-                  · subst e; simpa using hlog'
-                  · simp only [e, if_false]; exact hframe k' (Ne.symm e)
-          · -- another thread: it is at the entry of a durable write and blocks
-            exfalso
-            apply hguard
-            have hpc : th.pc = .start := hothers t th hth hti
-            have hlocki : opi.takesLock = true := by
-              have := h.ops thi (List.mem_of_getElem? hi) opi (by simp [hopsi])
-              rcases simple_cases this with ⟨k, v, rfl, hc, _, _⟩ | ⟨k, rfl, hc, _⟩ <;> simp [Op.takesLock, hc]
-            have hpcne : thi.pc ≠ .start := by
-              rw [hpci]
-              have := h.ops thi (List.mem_of_getElem? hi) opi (by simp [hopsi])
-              rcases simple_cases this with ⟨k, v, rfl, _, _, _⟩ | ⟨k, rfl, _, _⟩ <;> simp [afterLog]
-            simp only [h.walOn, hlock, hpc, Bool.and_eq_true, decide_eq_true_eq, List.any_eq_true, true_and]
-            exact ⟨thi, List.mem_of_getElem? hi, by simp [Thread.inCS, hopsi, hlocki, hpcne]⟩
-
-theorem LInv.run {sys : Sys} (h : LInv sys) (sched : List Nat) : LInv (runFrom sys sched) := by
-  induction sched generalizing sys with
-  | nil => exact h
-  | cons t rest ih => exact ih (h.step t)
-
-/-- once every thread has finished the replayed log agrees with memory on every key -/
-theorem LInv.quiescent_agree {sys : Sys} (h : LInv sys) (hq : quiescent sys = true) (k : Key) :
-    aget (replay sys.store.wal).md k = aget sys.store.md k := by
-  rcases h.cs with ⟨_, hidle⟩ | ⟨i, thi, opi, resti, ki, hi, hopsi, _⟩
-  · exact hidle k
-  · simp only [quiescent, List.all_eq_true, List.isEmpty_iff] at hq
-    rw [hq thi (List.mem_of_getElem? hi)] at hopsi
-    cases hopsi
 
 /-- which keys a scan with prefix `p` lists: what the metadata range selects of the metadata slab,
     what starts with `p` of the entity index and the cache ring -/
